@@ -653,9 +653,56 @@ def g_int(r, depth, in_pred):
     return T("int", "{0} " + r.choice(["+", "-", "*"]) + " {1}", g_int(r, depth - 1, in_pred), g_int(r, depth - 1, in_pred))
 
 
+BIG_NUMERALS = ["2147483647", "2147483648", "4294967296", "9007199254740992", "9007199254740993", "9223372036854775807",
+                "9223372036854775808", "9999999999999999999", "18446744073709551615", "18446744073709551616",
+                "10000000000000000000", "10000000000000000000000", "12345678901234567890123", "0000000000000000000000001",
+                "0.1", "0.30000000000000004", "123456789.987654321", "0.000000000000000000001", "1234567890123456789.5",
+                ".0000000001", "00012.500", "999999999", "1000000000", "9999999999", "99999999999999999999.99999"]
+
+
+def g_numeral(r):
+    """decimal numeral with 1-25 integer digits (biased towards the 2^31 / 2^53 / 2^63 / 2^64 / 10^19 / 10^22 neighbourhoods),
+    optionally a fraction and leading zeros"""
+    if r.chance(1, 2):
+        base = r.choice([2 ** 31, 2 ** 32, 2 ** 53, 2 ** 63, 2 ** 64, 10 ** 9, 10 ** 10, 10 ** 18, 10 ** 19, 10 ** 22])
+        v = base + r.range(-3, 3)
+        ip = str(max(v, 0))
+    else:
+        n = r.range(1, 25)
+        ip = "".join(r.choice("0123456789") for _ in range(n))
+    if r.chance(1, 6):
+        ip = "0" * r.range(1, 3) + ip
+    if r.chance(1, 3):
+        fp = "".join(r.choice("0123456789") for _ in range(r.range(1, 12)))
+        return ip + "." + fp
+    if r.chance(1, 12):
+        return ip + "."
+    return ip
+
+
+def g_numeric_string(r):
+    k = r.below(10)
+    t = g_numeral(r)
+    if k == 0:
+        return "-" + t
+    if k == 1:
+        return " " + t + " "
+    if k == 2:
+        return " -" + t + "\t"
+    if k == 3:
+        return r.choice(["+" + t, t + "e3", "0x" + t, t + " 1", "- " + t, "--" + t, t + "-"])      # not numbers
+    if k == 4:
+        return "-0"
+    return t
+
+
 def g_num(r, depth, in_pred):
     k = r.weighted([("int", 6), ("lit", 3), ("sum", 2), ("number", 2), ("arith", 4 if depth > 0 else 0),
-                    ("neg", 1 if depth > 0 else 0), ("fn", 2 if depth > 0 else 0)])
+                    ("neg", 1 if depth > 0 else 0), ("fn", 2 if depth > 0 else 0), ("big", 3), ("numstr", 2)])
+    if k == "big":
+        return T("num", r.choice(BIG_NUMERALS) if r.chance(1, 2) else g_numeral(r))
+    if k == "numstr":
+        return T("num", "number('" + g_numeric_string(r) + "')")
     if k == "int":
         return g_int(r, depth, in_pred)
     if k == "lit":
@@ -680,7 +727,9 @@ def g_num(r, depth, in_pred):
 def g_str(r, depth, in_pred):
     k = r.weighted([("lit", 4), ("string", 3), ("name", 2), ("fn", 4 if depth > 0 else 0)])
     if k == "lit":
-        return T("str", r.choice(["'a'", "'b'", "'1'", "' 2 '", "''", "'x y'", "'abcde'", "'12345'", "'-1'"]))
+        if r.chance(1, 4):
+            return T("str", "'" + g_numeric_string(r) + "'")
+        return T("str", r.choice(["'a'", "'b'", "'1'", "' 2 '", "''", "'x y'", "'abcde'", "'12345'", "'-1'", "' a\t\tb\n c '", "'  '"]))
     if k == "string":
         w = r.below(4)
         if w == 0:
@@ -698,12 +747,17 @@ def g_str(r, depth, in_pred):
     if f in ("before", "after"):
         return T("str", "substring-" + f + "({0}, {1})", s1, T("str", r.choice(["'a'", "' '", "''", "'2'", "'bc'", "'x y'", "'1'", "'ab'"])) if r.chance(2, 3) else g_str(r, 0, in_pred))
     if f == "concat":
+        w = r.below(3)
+        if w == 0:
+            return T("str", "concat({0}, {1})", s1, g_str(r, depth - 1, in_pred))
+        if w == 1:
+            return T("str", "concat({0}, {1}, {2}, {3})", s1, g_str(r, 0, in_pred), g_str(r, 0, in_pred), T("str", "string({0})", g_int(r, 0, in_pred)))
         return T("str", "concat({0}, {1}, {2})", s1, g_str(r, depth - 1, in_pred), T("str", "string({0})", g_int(r, 0, in_pred)))
     if f == "substring2":
-        return T("str", "substring({0}, {1})", s1, T("num", r.choice(["0", "1", "2", "1.5", "-1", "10", "0 div 0", "2.5"])))
+        return T("str", "substring({0}, {1})", s1, T("num", r.choice(["0", "1", "2", "1.5", "-1", "10", "0 div 0", "2.5", "-1 div 0", "1 div 0", "0.5", "1.4999", "3.5"])))
     if f == "substring3":
         return T("str", "substring({0}, {1}, {2})", s1, T("num", r.choice(["0", "1", "2", "1.5", "-1", "0.5", "2.5"])),
-                 T("num", r.choice(["0", "1", "2", "2.6", "3", "100", "1 div 0", "0 div 0", "-1"])))
+                 T("num", r.choice(["0", "1", "2", "2.6", "3", "100", "1 div 0", "0 div 0", "-1", "-1 div 0", "0.5", "1.5", "2.4999"])))
     if f == "normalize-space":
         return T("str", "normalize-space({0})", s1)
     return T("str", "translate({0}, {1}, {2})", s1, T("str", r.choice(["'ab'", "'1 '", "'xyz'", "'aa'"])), T("str", r.choice(["'X'", "''", "'12'", "'yz'"])))
@@ -714,6 +768,8 @@ def g_bool(r, depth, in_pred):
     if k == "same":
         return T("bool", "set:has-same-node({0}, {1})", g_ns(r, depth - 1, in_pred), g_ns(r, depth - 1, in_pred))
     if k == "const":
+        if r.chance(1, 2):
+            return T("bool", "lang(" + r.choice(["'en'", "'EN'", "'en-us'", "'de'", "'fr'", "'e'", "'en-'"]) + ")")
         return T("bool", r.choice(["true()", "false()"]))
     if k == "exists":
         return T("bool", "boolean({0})", g_ns(r, depth - 1, in_pred))
@@ -843,7 +899,11 @@ def gen_doc2(r, maxnodes=14):
     """document with comments and processing instructions too"""
     table = [("r", "", "", -1)]
     budget = [r.range(3, maxnodes)]
-    texts = ["1", "2", "3", "10", "a", "b", " 2 ", "x", "2.5", "-1", "NaN", "07", "x y"]
+    texts = ["1", "2", "3", "10", "a", "b", " 2 ", "x", "2.5", "-1", "NaN", "07", "x y", "9223372036854775808",
+             "9999999999999999999", "-9223372036854775809", "18446744073709551616", "0.1", "4294967296", " 2147483648 ",
+             "123456789012345678901234", "0.30000000000000004"]
+    if r.chance(1, 2):
+        texts = texts + [g_numeric_string(r).replace("\t", " ") for _ in range(4)]
 
     def elem(parent, depth):
         name = r.choice(DOCNAMES)
@@ -861,6 +921,10 @@ def gen_doc2(r, maxnodes=14):
             av = r.choice(texts).strip() or "v"
             table.append(("a", an, av, me))
             xml += ' %s="%s"' % (an, av)
+        if r.chance(1, 6):
+            lv = r.choice(["en", "en-US", "EN-gb", "de", "fr-CA", "e"])
+            table.append(("a", "xml:lang", lv, me))
+            xml += ' xml:lang="%s"' % lv
         kids = ""
         last_text = False
         nk = r.range(0, 4) if depth < 3 else 0
